@@ -480,4 +480,67 @@ theorem batch_file_roundtrip (n : Nat) (hn : n < 2 ^ 32) (ds : List BDoc) (hds :
       (ds.foldl (fun b d => (b.add d).1) (Batch.new n)).samples :=
   FileE2E.batch_file_roundtrip n hn ds hds deflate inflate hz now out hres hsz
 
+open Ftdc.Props.C07 in
+theorem good_docOK (d : BDoc) (h : Good d) : DocOK d := by
+  obtain ⟨h1, h2, h3, _, h5⟩ := h
+  exact ⟨h1, h2, h3, by simpa [vals] using h5⟩
+
+open Ftdc.Props.C07 in
+theorem structured_congr (a b : Chunk) (h1 : a.ref = b.ref) (h2 : a.rows = b.rows) : a.structured = b.structured := by
+  unfold Chunk.structured; rw [h1, h2]
+
+open Ftdc.Props.C07 in
+/-- **`ReadStructuredMetrics` of the bytes a streaming collector has written**: add `d0` and any documents `ds` of its
+schema (every chunk size, every count); the bytes handed to the writer, read back by the reader model, give - chunk by
+chunk and in order - exactly the documents added (all but those of the pending chunk) with their non-metric leaves
+removed, and no error. -/
+theorem streaming_file_structured (n : Nat) (h1 : 1 ≤ n) (hn : n < 2 ^ 32) (d0 : BDoc) (ds : List BDoc)
+    (hsim : ∀ d ∈ ds, SimDoc d0 d) (hgood : ∀ d ∈ d0 :: ds, Good d)
+    (deflate : Bytes → Bytes) (inflate : Inflate) (hz : FileE2E.ZlibOK deflate inflate) (now : I64)
+    (hsz : FileE2E.SizesOK deflate now
+      (logDocs ((d0 :: ds).foldl (fun (c : Streaming) d => (c.add d).1) (Streaming.new n)).out)) :
+    ∃ (chs : List (BDoc × List BDoc)) (cur : Option (BDoc × List BDoc)),
+      allDocs chs cur = d0 :: ds ∧
+      let file := FileE2E.fileBytes deflate now
+        (logDocs ((d0 :: ds).foldl (fun (c : Streaming) d => (c.add d).1) (Streaming.new n)).out)
+      (readAll inflate file).err = none ∧
+      (readAll inflate file).chunks.map Chunk.structured = chs.map fun p => (chunkDocs p).map project := by
+  obtain ⟨chs, cur, hlog, _, hall, hdec⟩ := streaming_collector_roundtrip n h1 hn d0 ds hsim hgood
+  refine ⟨chs, cur, hall, ?_⟩
+  intro file
+  have hck := FileE2E.streaming_logged_chunkOK n hn (d0 :: ds) (fun d hd => good_docOK d (hgood d hd))
+  have hck' : ∀ o ∈ logDocs ((d0 :: ds).foldl (fun (c : Streaming) d => (c.add d).1) (Streaming.new n)).out, ChunkOK o := hck
+  obtain ⟨e1, e2⟩ := FileE2E.file_roundtrip deflate inflate hz now _
+    (fun o ho => ⟨hck' o ho, (hsz o ho).1, (hsz o ho).2⟩)
+  refine ⟨e1, ?_⟩
+  -- the file's chunks have the reference documents and rows of the chunks `decodePayload` returns
+  have key : ∀ (ps : List (BDoc × List BDoc)) (cs : List Chunk),
+      (∀ p ∈ ps, ChunkOK (mkChunk p) ∧
+        ∃ ch, decodePayload (mkChunk p).payload = .ok ch ∧ ch.structured = (chunkDocs p).map project) →
+      cs.map (fun c => (c.ref, c.rows)) = (ps.map mkChunk).filterMap FileE2E.chunkPart →
+      cs.map Chunk.structured = ps.map fun p => (chunkDocs p).map project := by
+    intro ps
+    induction ps with
+    | nil => intro cs _ h; simp at h; simp [h]
+    | cons p ps ih =>
+      intro cs hp h
+      cases cs with
+      | nil => simp [mkChunk, FileE2E.chunkPart] at h
+      | cons c cs =>
+        simp only [List.map_cons, List.filterMap_cons, mkChunk, FileE2E.chunkPart, List.cons.injEq, Prod.mk.injEq] at h
+        obtain ⟨⟨hr, hrows⟩, hrest⟩ := h
+        obtain ⟨hck, ch, hd, hstr⟩ := hp p (List.mem_cons_self ..)
+        obtain ⟨g1, g2⟩ := FileE2E.decoded_ref_rows _ _ _ _ hck ch hd
+        simp only [List.map_cons]
+        rw [ih cs (fun q hq => hp q (List.mem_cons_of_mem _ hq)) hrest]
+        congr 1
+        rw [← hstr]
+        exact structured_congr c ch (by rw [hr, g1]) (by rw [hrows, g2])
+  apply key chs _ ?_ (by rw [← hlog]; exact e2)
+  intro p hp
+  refine ⟨?_, hdec p (Or.inl hp)⟩
+  apply hck'
+  rw [hlog]
+  exact List.mem_map.mpr ⟨p, hp, rfl⟩
+
 end Ftdc.Props.C01
